@@ -62,7 +62,7 @@ def esrc(e, prec=0):
         # right-nested same-operator chains are printed flat: that is what Python parses to a
         # flat BoolOp and what the builder re-nests
         parts, cur = [e[2]], e[3]
-        while cur[0] == "bool2" and cur[1] == e[1] and not (len(cur) > 4 and cur[4]):
+        while cur[0] == "bool2" and cur[1] == e[1]:
             parts.append(cur[2])
             cur = cur[3]
         parts.append(cur)
@@ -414,7 +414,9 @@ def from_expr(n):
         return ("walrus", _name(n.target.id)[1], from_expr(n.value))
     if cls == "ComptimeExpr":
         v = n.value
-        return ("comptime", [from_expr(x) for x in v.elts] if isinstance(v, ast.Tuple) and not hasattr(v, "lineno_orig") and getattr(v, "_c02_multi", True) and _is_synth_tuple(v, n) else [from_expr(v)])
+        if isinstance(v, ast.Tuple) and _is_synth_tuple(v, n):
+            return ("comptime", [from_expr(x) for x in v.elts])
+        return ("comptime", [from_expr(v)])
     if isinstance(n, ast.Call):
         if n.keywords:
             raise Unencodable("keywords")
@@ -758,3 +760,49 @@ class Gen:
         if not rn and self.r.random() < 0.8:
             body = body + [("return", self.expr(2))]
         return body, rn
+
+
+# ---------------------------------------------------------------------------------- source ast -> terms
+def from_src_stmt(s):
+    """a *source* statement (fresh from ast.parse) -> term; used to validate the printers"""
+    if isinstance(s, ast.Assign):
+        return ("assign", [from_expr(t) for t in s.targets], from_expr(s.value))
+    if isinstance(s, ast.AugAssign):
+        return ("aug", from_expr(s.target), [type(s.op) is c for c in BINOP_AST].index(True), from_expr(s.value))
+    if isinstance(s, ast.AnnAssign):
+        return ("ann", from_expr(s.target), None if s.value is None else from_expr(s.value))
+    if isinstance(s, ast.Expr):
+        return ("expr", from_expr(s.value))
+    if isinstance(s, ast.Return):
+        return ("return", None if s.value is None else from_expr(s.value))
+    if isinstance(s, ast.If):
+        return ("ifs", from_expr(s.test), [from_src_stmt(x) for x in s.body], [from_src_stmt(x) for x in s.orelse])
+    if isinstance(s, ast.While):
+        return ("while", from_expr(s.test), [from_src_stmt(x) for x in s.body], [from_src_stmt(x) for x in s.orelse])
+    if isinstance(s, ast.For):
+        return ("for", from_expr(s.target), from_expr(s.iter), [from_src_stmt(x) for x in s.body],
+                [from_src_stmt(x) for x in s.orelse])
+    if isinstance(s, ast.Break):
+        return ("break",)
+    if isinstance(s, ast.Continue):
+        return ("continue",)
+    if isinstance(s, ast.Pass):
+        return ("pass",)
+    if isinstance(s, ast.FunctionDef):
+        rn = isinstance(s.returns, ast.Constant) and s.returns.value is None
+        return ("def", [from_src_stmt(x) for x in s.body], rn)
+    return ("otherstmt", type(s).__name__)
+
+
+def norm(t):
+    """normal form for comparing a generated term with the re-parsed source: `pass`-only bodies
+    for empty suites, comptime calls, lists vs tuples of python containers"""
+    if isinstance(t, tuple):
+        if t and t[0] == "call" and t[1] == ("vu_name", "comptime"):
+            return ("comptime", [norm(x) for x in t[2]])
+        if t and t[0] == "otherstmt":
+            return ("otherstmt",)
+        return tuple(norm(x) for x in t)
+    if isinstance(t, list):
+        return [norm(x) for x in t]
+    return t
